@@ -2632,7 +2632,41 @@ func historicContextInputs(c *Ctx) {
 			if getters[fn] {
 				n++
 				key := fmt.Sprintf("historic-context-inputs.%s#%d", shortSym(FuncKey(fd.Obj)), n)
-				if inCond[call] {
+				condOnly := inCond[call]
+				if !condOnly {
+					// bound to locals that are mentioned in conditions only
+					ast.Inspect(fd.Decl.Body, func(y ast.Node) bool {
+						as, ok := y.(*ast.AssignStmt)
+						if !ok || len(as.Lhs) != len(as.Rhs) {
+							return true
+						}
+						for i, r := range as.Rhs {
+							if ast.Unparen(r) != ast.Expr(call) {
+								continue
+							}
+							id, ok := as.Lhs[i].(*ast.Ident)
+							if !ok {
+								continue
+							}
+							v := info.ObjectOf(id)
+							uses, inConds := 0, 0
+							ast.Inspect(fd.Decl.Body, func(z ast.Node) bool {
+								if u, ok := z.(*ast.Ident); ok && u != id && info.ObjectOf(u) == v {
+									uses++
+									if inCond[u] {
+										inConds++
+									}
+								}
+								return true
+							})
+							if uses > 0 && uses == inConds {
+								condOnly = true
+							}
+						}
+						return true
+					})
+				}
+				if condOnly {
 					c.OK(key, c.P.Pos(call.Pos()), shortSym(FuncKey(fn))+" consulted in a condition (what the node retains now)")
 				} else {
 					c.Fail(key, c.P.Pos(call.Pos()), fmt.Sprintf("%s%s takes a value from %s, which reads the *current* state (bc.dao), while building the context of a historic invocation: what the script sees (the time of the block it runs in) follows later changes of the chain's settings instead of those in force at the requested height - the invocation no longer returns what the live node returned at that height", FuncKey(fd.Obj), via, shortSym(FuncKey(fn))))
